@@ -299,13 +299,20 @@ def ReparentOk : Prop :=
     path st np = some pnp → dget st.all (pnp ++ [nn]) = none → ¬ Below st.objs ob np →
     ∃ st', reparent st ob np nn = .ok st'
 
+/-- every package above an import target, other than the importing module itself, has a rank below the importer's
+(since /repo 0ba6723 `getProcessedModule` enters the unprocessed packages above the module it is asked for) -/
+def AboveLow (proj : Project) (rank : List Nat) : Prop :=
+  ∀ (S : Site) (b : List Stmt) (st : Stmt) (t P : Nat), siteBody proj S = some b → st ∈ b →
+    some t ∈ stmtTargets proj S.1 st → P < proj.length → (∃ q, q ≠ [] ∧ pathOf proj t = pathOf proj P ++ q) →
+    P = S.1 ∨ rankOf rank P < rankOf rank S.1
+
 /-- the implicit submodule lookup of `from <package> import n` (`getProcessedModule(f'{modname}.{name}')`) enters
-no module whose rank is not below the importing module's -/
+no module whose rank is not below the importing module's; and `AboveLow` -/
 def SubLookup (proj : Project) (rank : List Nat) : Prop :=
-  ∀ (s : St), PdInv proj s → ∀ (S : Site) (b : List Stmt) (lvl : Nat) (M : Path) (n : Name) (a : Option Name) (t : Nat),
+  (∀ (s : St), PdInv proj s → ∀ (S : Site) (b : List Stmt) (lvl : Nat) (M : Path) (n : Name) (a : Option Name) (t : Nat),
     siteBody proj S = some b → Stmt.importFrom lvl M n a ∈ b → target proj S.1 lvl M = some t → isPkg proj t = true →
     ∀ t2 c, lookupModule s (pathOf proj t ++ [n]) = (some t2, c) → getPs s t2 = .unprocessed →
-      rankOf rank t2 < rankOf rank S.1
+      rankOf rank t2 < rankOf rank S.1 ∧ modIdx proj (pathOf proj t ++ [n]) = some t2) ∧ AboveLow proj rank
 
 /-! ## `getProcessedModule` -/
 
@@ -320,10 +327,125 @@ def PmOk (proj : Project) (rank : List Nat) (pm : St → Nat → St) (k : Nat) :
     (pm s t).bad = false ∧ PdInv proj (pm s t) ∧ Ext proj s (pm s t) ∧ getPs (pm s t) t = .processed ∧
     FrameX proj none [] s (pm s t)
 
+theorem psRel_unproc {s s' : St} (h : PsRel s s') {x : Nat} (hx : getPs s' x = .unprocessed) : getPs s x = .unprocessed := by
+  cases hp : getPs s x with
+  | unprocessed => rfl
+  | processing => rw [(h x).1 hp] at hx; cases hx
+  | processed => rw [(h x).2.1 hp] at hx; cases hx
+
+theorem psRel_processing {s s' : St} (h : PsRel s s') {u : Nat} (hu : getPs s' u = .processing) : getPs s u = .processing := by
+  cases hp : getPs s u with
+  | processing => rfl
+  | unprocessed => exact absurd hu ((h u).2.2 hp)
+  | processed => rw [(h u).2.1 hp] at hu; cases hu
+
+theorem modulesAbove_lt {proj : Project} {s : St} (hI : PdInv proj s) :
+    ∀ (f i : Nat), ∀ m ∈ modulesAbove s.reg f i, m < proj.length
+  | 0, _, m, h => by simp [modulesAbove] at h
+  | f+1, i, m, h => by
+    unfold modulesAbove at h
+    split at h
+    · split at h
+      · rename_i par _ hm
+        rcases List.mem_cons.1 h with h | h
+        · subst h; exact module_obj hI hm
+        · exact modulesAbove_lt hI f par m h
+      · cases h
+    · cases h
+
+/-- the modules above an object are registered under proper prefixes of its name -/
+theorem modulesAbove_prefix {proj : Project} {s : St} (hI : PdInv proj s) :
+    ∀ (f i : Nat) (pi : Path), path s.reg i = some pi → ∀ P ∈ modulesAbove s.reg f i,
+      ∃ pp q, path s.reg P = some pp ∧ q ≠ [] ∧ pi = pp ++ q
+  | 0, _, _, _, P, h => by simp [modulesAbove] at h
+  | f+1, i, pi, hp, P, h => by
+    unfold modulesAbove at h
+    cases hgo : getObj s.reg i with
+    | none => simp [hgo] at h
+    | some o =>
+      cases hpar : o.parent with
+      | none => simp [hgo, hpar] at h
+      | some par =>
+        simp only [hgo, Option.bind_some, hpar] at h
+        split at h
+        · have hm := Registry.mem_of_path hI.reg hp
+          have ho : s.reg.objs[i]? = some o := hgo
+          obtain ⟨pq, hpq, e⟩ := (hI.reg.reg.hasPath hm).child_inv ho hpar
+          have hppar : path s.reg par = some pq := by
+            obtain ⟨k0, hk0⟩ := hI.reg.full par hpq.lt
+            have := (hI.reg.reg.hasPath hk0).func hpq
+            subst this
+            exact hI.reg.reg.keys _ _ hk0
+          rcases List.mem_cons.1 h with h | h
+          · subst h; exact ⟨pq, [o.name], hppar, by simp, e⟩
+          · obtain ⟨pp, q, h1, h2, h3⟩ := modulesAbove_prefix hI f par pq hppar P h
+            exact ⟨pp, q ++ [o.name], h1, by simp, by rw [e, h3]; simp⟩
+        · cases h
+
+theorem pmMany_ok {proj : Project} {rank : List Nat} {pm : St → Nat → St} {k : Nat} (hpm : PmOk proj rank pm k) :
+    ∀ (l : List Nat) (s : St), (∀ m ∈ l, m < proj.length) → PdInv proj s → s.bad = false → cnt s ≤ k →
+      (∀ m ∈ l, getPs s m = .unprocessed → ∀ u, getPs s u = .processing → rankOf rank m < rankOf rank u) →
+      (pmMany pm l s).bad = false ∧ PdInv proj (pmMany pm l s) ∧ Ext proj s (pmMany pm l s) ∧
+      FrameX proj none [] s (pmMany pm l s)
+  | [], s, _, hI, hb, _, _ => ⟨hb, hI, Ext.refl _ _, FrameX.refl _ _ _ _⟩
+  | m :: r, s, hl, hI, hb, hk, hlow => by
+    rw [show pmMany pm (m :: r) s = pmMany pm r (if getPs s m = .unprocessed then pm s m else s) from rfl]
+    by_cases hu : getPs s m = .unprocessed
+    · simp only [hu, if_true]
+      have hm := hl m List.mem_cons_self
+      obtain ⟨hb1, hI1, he1, _, hf1⟩ := hpm s m hb hI hm hu hk (hlow m List.mem_cons_self hu)
+      have hk1 : cnt (pm s m) ≤ k := Nat.le_trans (cnt_ext hI hI1 he1) hk
+      obtain ⟨hb2, hI2, he2, hf2⟩ := pmMany_ok hpm r _ (fun x hx => hl x (List.mem_cons_of_mem _ hx)) hI1 hb1 hk1
+        (fun x hx hxu u huu => hlow x (List.mem_cons_of_mem _ hx) (psRel_unproc he1.ps hxu) u (psRel_processing he1.ps huu))
+      exact ⟨hb2, hI2, he1.trans he2, by simpa using hf1.trans he1.ps hf2⟩
+    · simp only [hu, if_false]
+      exact pmMany_ok hpm r _ (fun x hx => hl x (List.mem_cons_of_mem _ hx)) hI hb hk
+        (fun x hx => hlow x (List.mem_cons_of_mem _ hx))
+
+theorem gpmAbove_ok {proj : Project} {rank : List Nat} {pm : St → Nat → St} {k : Nat} (hpm : PmOk proj rank pm k)
+    {s : St} {t : Nat} (hI : PdInv proj s) (hb : s.bad = false) (hk : cnt s ≤ k)
+    (hrkA : getPs s t = .unprocessed → ∀ P ∈ modulesAbove s.reg (s.reg.objs.length + 1) t, getPs s P = .unprocessed →
+      ∀ u, getPs s u = .processing → rankOf rank P < rankOf rank u) :
+    (gpmAbove pm s t).bad = false ∧ PdInv proj (gpmAbove pm s t) ∧ Ext proj s (gpmAbove pm s t) ∧
+    FrameX proj none [] s (gpmAbove pm s t) := by
+  unfold gpmAbove
+  split
+  · rename_i hun
+    unfold processAbove
+    exact pmMany_ok hpm _ _ (fun m hm => modulesAbove_lt hI _ _ m (List.mem_reverse.1 hm)) hI hb hk
+      (fun m hm => hrkA hun m (List.mem_reverse.1 hm))
+  · exact ⟨hb, hI, Ext.refl _ _, FrameX.refl _ _ _ _⟩
+
+theorem gpmOne_ok {proj : Project} {rank : List Nat} {pm : St → Nat → St} {k : Nat} (hpm : PmOk proj rank pm k)
+    {s : St} {t : Nat} (hI : PdInv proj s) (hlt : t < proj.length) (hb : s.bad = false) (hk : cnt s ≤ k)
+    (hrk : getPs s t = .unprocessed → ∀ u, getPs s u = .processing → rankOf rank t < rankOf rank u) :
+    (gpmOne pm s t).bad = false ∧ PdInv proj (gpmOne pm s t) ∧ Ext proj s (gpmOne pm s t) ∧
+    FrameX proj none [] s (gpmOne pm s t) ∧ getPs (gpmOne pm s t) t ≠ .unprocessed ∧
+    (getPs s t ≠ .processing → getPs (gpmOne pm s t) t = .processed) := by
+  unfold gpmOne
+  simp only
+  by_cases hun : getPs s t = .unprocessed
+  · simp only [hun, if_true]
+    obtain ⟨hb1, hI1, he1, hdone, hf1⟩ := hpm s t hb hI hlt hun hk (hrk hun)
+    have hne : (PState.processed == PState.unprocessed) = false := by decide
+    rw [hdone, hne, markBad_false]
+    exact ⟨hb1, hI1, he1, hf1, by rw [hdone]; simp, fun _ => hdone⟩
+  · simp only [hun, if_false]
+    have : (getPs s t == PState.unprocessed) = false := by simpa using hun
+    rw [this, markBad_false]
+    refine ⟨hb, hI, Ext.refl _ _, FrameX.refl _ _ _ _, hun, fun hnp => ?_⟩
+    cases hp : getPs s t with
+    | unprocessed => exact absurd hp hun
+    | processing => exact absurd hp hnp
+    | processed => rfl
+
 theorem gpm_ok {proj : Project} {rank : List Nat} (wf : WFacts proj rank) {pm : St → Nat → St} {k : Nat}
     (hpm : PmOk proj rank pm k) {s : St} {T : Path} (hI : PdInv proj s) (hb : s.bad = false) (hk : cnt s ≤ k)
     (hrk : ∀ t c, lookupModule s T = (some t, c) → getPs s t = .unprocessed →
-      ∀ u, getPs s u = .processing → rankOf rank t < rankOf rank u) :
+      ∀ u, getPs s u = .processing → rankOf rank t < rankOf rank u)
+    (hrkA : ∀ t c, lookupModule s T = (some t, c) → getPs s t = .unprocessed →
+      ∀ P ∈ modulesAbove s.reg (s.reg.objs.length + 1) t,
+      getPs s P = .unprocessed → ∀ u, getPs s u = .processing → rankOf rank P < rankOf rank u) :
     (getProcessedModule pm s T).1.bad = false ∧ PdInv proj (getProcessedModule pm s T).1 ∧
     Ext proj s (getProcessedModule pm s T).1 ∧ FrameX proj none [] s (getProcessedModule pm s T).1 ∧
     ∀ t, (getProcessedModule pm s T).2 = some t → t < proj.length ∧ (∀ t', modIdx proj T = some t' → t = t') ∧
@@ -341,24 +463,92 @@ theorem gpm_ok {proj : Project} {rank : List Nat} (wf : WFacts proj rank) {pm : 
     | some t =>
       simp only [markBad_false]
       obtain ⟨hlt, hu⟩ := lookupModule_spec hI hl
-      by_cases hun : getPs s t = .unprocessed
-      · simp only [hun, if_true]
-        obtain ⟨hb1, hI1, he1, hdone, hf1⟩ := hpm s t hb hI hlt hun hk (hrk t _ hl hun)
-        have hne : (PState.processed == PState.unprocessed) = false := by decide
-        rw [hdone, hne, markBad_false]
-        refine ⟨hb1, hI1, he1, hf1, fun t0 ht0 => ?_⟩
-        injection ht0 with ht0; subst ht0
-        exact ⟨hlt, hu, by rw [hdone]; simp, fun _ => hdone⟩
-      · simp only [hun, if_false]
-        have : (getPs s t == PState.unprocessed) = false := by simpa using hun
-        rw [this, markBad_false]
-        refine ⟨hb, hI, Ext.refl _ _, FrameX.refl _ _ _ _, fun t0 ht0 => ?_⟩
-        injection ht0 with ht0; subst ht0
-        refine ⟨hlt, hu, hun, fun hnp => ?_⟩
-        cases hp : getPs s t with
-        | unprocessed => exact absurd hp hun
-        | processing => exact absurd hp hnp
-        | processed => rfl
+      obtain ⟨hbA, hIA, heA, hfA⟩ := gpmAbove_ok (t := t) hpm hI hb hk (hrkA t _ hl)
+      have hkA : cnt (gpmAbove pm s t) ≤ k := Nat.le_trans (cnt_ext hI hIA heA) hk
+      obtain ⟨hb1, hI1, he1, hf1, hne1, hdone1⟩ := gpmOne_ok hpm hIA hlt hbA hkA
+        (fun hun u huu => hrk t _ hl (psRel_unproc heA.ps hun) u (psRel_processing heA.ps huu))
+      refine ⟨hb1, hI1, heA.trans he1, by simpa using hfA.trans heA.ps hf1, fun t0 ht0 => ?_⟩
+      injection ht0 with ht0; subst ht0
+      refine ⟨hlt, hu, hne1, fun hnp => hdone1 (fun hpA => hnp (psRel_processing heA.ps hpA))⟩
+
+/-- the packages above a module whose name is a prefix of an import target of the statement being visited: those that
+are still unprocessed have a rank below that of every module being processed -/
+theorem above_low {proj : Project} {rank : List Nat} (hsl : SubLookup proj rank) {s : St} (hI : PdInv proj s)
+    {mod ctx : Nat} {S : Site} {full : List Stmt} (hc : Ctx proj rank s mod ctx S full) {st : Stmt} (hst : st ∈ full)
+    {t : Nat} (htg : some t ∈ stmtTargets proj S.1 st) {t0 : Nat} (ht0 : t0 < proj.length) {q0 : Path}
+    (hpre : pathOf proj t = pathOf proj t0 ++ q0) :
+    ∀ P ∈ modulesAbove s.reg (s.reg.objs.length + 1) t0, getPs s P = .unprocessed →
+      ∀ u, getPs s u = .processing → rankOf rank P < rankOf rank u := by
+  intro P hP hPu u hu
+  have hPl := modulesAbove_lt hI _ _ P hP
+  obtain ⟨_, _, hpt0, _⟩ := hI.mods t0 ht0
+  obtain ⟨pp, q, hpp, hq, he⟩ := modulesAbove_prefix hI _ _ _ hpt0 P hP
+  obtain ⟨_, _, hpP, _⟩ := hI.mods P hPl
+  rw [hpP] at hpp; injection hpp with hpp; subst hpp
+  rcases hsl.2 S full st t P hc.body hst htg hPl ⟨q ++ q0, by simp [hq], by rw [hpre, he]; simp⟩ with h | h
+  · rw [h, hc.hS1, hc.ps] at hPu; cases hPu
+  · have := hc.low u hu
+    rw [hc.hS1] at h; omega
+
+theorem prefixesOf_spec : ∀ {tp p : Path}, p ∈ prefixesOf tp → p ≠ [] ∧ ∃ q, tp = p ++ q
+  | [], _, h => by simp [prefixesOf] at h
+  | x :: r, p, h => by
+    simp only [prefixesOf, List.mem_cons, List.mem_map] at h
+    rcases h with h | ⟨p', hp', rfl⟩
+    · subst h; exact ⟨by simp, r, rfl⟩
+    · obtain ⟨_, q, hq⟩ := prefixesOf_spec hp'
+      exact ⟨by simp, q, by rw [hq]; rfl⟩
+
+theorem importProcess_ok {proj : Project} {rank : List Nat} (wf : WFacts proj rank) (hsl : SubLookup proj rank)
+    {pm : St → Nat → St} {k : Nat} (hpm : PmOk proj rank pm k) {mod ctx : Nat} {S : Site} {full : List Stmt}
+    {tp : Path} {a : Option Name} (hst : Stmt.importMod tp a ∈ full) :
+    ∀ (l : List Path), (∀ p ∈ l, p ≠ [] ∧ ∃ q, tp = p ++ q) → ∀ (s : St), PdInv proj s → Ctx proj rank s mod ctx S full →
+      s.bad = false → cnt s ≤ k →
+      (l.foldl (fun st p => (getProcessedModule pm st p).1) s).bad = false ∧
+      PdInv proj (l.foldl (fun st p => (getProcessedModule pm st p).1) s) ∧
+      Ext proj s (l.foldl (fun st p => (getProcessedModule pm st p).1) s) ∧
+      FrameX proj none [] s (l.foldl (fun st p => (getProcessedModule pm st p).1) s)
+  | [], _, s, hI, _, hb, _ => ⟨hb, hI, Ext.refl _ _, FrameX.refl _ _ _ _⟩
+  | p :: r, hl, s, hI, hc, hb, hk => by
+    simp only [List.foldl_cons]
+    obtain ⟨t, ht, hrkt⟩ := wf.targets hc.body hst (modIdx proj tp) (by simp [stmtTargets])
+    obtain ⟨htl, hpt⟩ := modIdx_spec ht
+    have htg : some t ∈ stmtTargets proj S.1 (.importMod tp a) := by simp [stmtTargets, ht]
+    obtain ⟨hpne, q, hq⟩ := hl p List.mem_cons_self
+    -- the module the prefix names
+    obtain ⟨tq, htq⟩ : ∃ tq, modIdx proj p = some tq := by
+      by_cases hq0 : q = []
+      · subst hq0; simp only [List.append_nil] at hq; exact ⟨t, hq ▸ ht⟩
+      · obtain ⟨tq, h1, _⟩ := mod_path_prefix wf q.length t p q rfl htl (by rw [hpt, hq]) hpne hq0
+        exact ⟨tq, h1⟩
+    obtain ⟨htql, hptq⟩ := modIdx_spec htq
+    have hpre : pathOf proj t = pathOf proj tq ++ q := by rw [hpt, hptq, hq]
+    have hrk : ∀ t0 c, lookupModule s p = (some t0, c) → getPs s t0 = .unprocessed →
+        ∀ u, getPs s u = .processing → rankOf rank t0 < rankOf rank u := by
+      intro t0 c hlk hu0 u hu
+      have := (lookupModule_spec hI hlk).2 tq htq; subst this
+      have hlow := hc.low u hu
+      by_cases hq0 : q = []
+      · subst hq0
+        have : t0 = t := by
+          have h1 : modIdx proj p = some t := by simp only [List.append_nil] at hq; exact hq ▸ ht
+          rw [htq] at h1; injection h1
+        subst this
+        rw [hc.hS1] at hrkt; omega
+      · rcases hsl.2 S full _ t t0 hc.body hst htg htql ⟨q, hq0, hpre⟩ with h | h
+        · rw [h, hc.hS1, hc.ps] at hu0; cases hu0
+        · rw [hc.hS1] at h; omega
+    have hrkA : ∀ t0 c, lookupModule s p = (some t0, c) → getPs s t0 = .unprocessed →
+        ∀ P ∈ modulesAbove s.reg (s.reg.objs.length + 1) t0,
+        getPs s P = .unprocessed → ∀ u, getPs s u = .processing → rankOf rank P < rankOf rank u := by
+      intro t0 c hlk _
+      have := (lookupModule_spec hI hlk).2 tq htq; subst this
+      exact above_low hsl hI hc hst htg htql hpre
+    obtain ⟨hb1, hI1, he1, hf1, _⟩ := gpm_ok wf hpm hI hb hk hrk hrkA
+    have hk1 : cnt (getProcessedModule pm s p).1 ≤ k := Nat.le_trans (cnt_ext hI hI1 he1) hk
+    obtain ⟨hb2, hI2, he2, hf2⟩ := importProcess_ok wf hsl hpm hst r (fun x hx => hl x (List.mem_cons_of_mem _ hx)) _ hI1
+      (hc.ext hI hI1 he1) hb1 hk1
+    exact ⟨hb2, hI2, he1.trans he2, by simpa using hf1.trans he1.ps hf2⟩
 
 /-! ## `import` -/
 
@@ -639,10 +829,17 @@ theorem visitImportFrom_ok {proj : Project} {rank : List Nat} (wf : WFacts proj 
     have := (lookupModule_spec hI hl).2 t hmt; subst this
     have := hc.low u hu
     rw [hS1] at hrkt; omega
-  obtain ⟨hb1, hI1, he1, hf1, hres1⟩ := gpm_ok wf hpm hI hb hk hrk1
+  have htg : some t ∈ stmtTargets proj S.1 (.importFrom lvl M n a) := by simp [stmtTargets, ht]
+  have hrkA1 : ∀ t0 c, lookupModule s T = (some t0, c) → getPs s t0 = .unprocessed →
+      ∀ P ∈ modulesAbove s.reg (s.reg.objs.length + 1) t0,
+      getPs s P = .unprocessed → ∀ u, getPs s u = .processing → rankOf rank P < rankOf rank u := by
+    intro t0 c hl _
+    have := (lookupModule_spec hI hl).2 t hmt; subst this
+    exact above_low hsl hI hc hst htg htl (q0 := []) (by simp)
+  obtain ⟨hb1, hI1, he1, hf1, hres1⟩ := gpm_ok wf hpm hI hb hk hrk1 hrkA1
   have hsnd := gpm_snd (pm := pm) hI hmt
   simp only [hsnd]
-  obtain ⟨_, _, _, hproc1⟩ := hres1 t hsnd
+  obtain ⟨_, _, hnu1, hproc1⟩ := hres1 t hsnd
   have htp : getPs (getProcessedModule pm s T).1 t = .processed := by
     apply hproc1
     intro hp
@@ -663,10 +860,42 @@ theorem visitImportFrom_ok {proj : Project} {rank : List Nat} (wf : WFacts proj 
       have hrk2 : ∀ t0 c, lookupModule s1 (T ++ [n]) = (some t0, c) → getPs s1 t0 = .unprocessed →
           ∀ u, getPs s1 u = .processing → rankOf rank t0 < rankOf rank u := by
         intro t0 c hl hu0 u hu
-        have h1 := hsl s1 hI1 S full lvl M n a t hc.body hst ht hpk' t0 c (by rw [hpt]; exact hl) hu0
+        have h1 := (hsl.1 s1 hI1 S full lvl M n a t hc.body hst ht hpk' t0 c (by rw [hpt]; exact hl) hu0).1
         have h2 := hc1.low u hu
         rw [hS1] at h1; omega
-      obtain ⟨hb2, hI2, he2, hf2, _⟩ := gpm_ok wf hpm hI1 hb1 hk1 hrk2
+      have hrkA2 : ∀ t0 c, lookupModule s1 (T ++ [n]) = (some t0, c) → getPs s1 t0 = .unprocessed →
+          ∀ P ∈ modulesAbove s1.reg (s1.reg.objs.length + 1) t0,
+          getPs s1 P = .unprocessed → ∀ u, getPs s1 u = .processing → rankOf rank P < rankOf rank u := by
+        intro t0 c hl hu0 P hP hPu u hu
+        have hmc := (hsl.1 s1 hI1 S full lvl M n a t hc.body hst ht hpk' t0 c (by rw [hpt]; exact hl) hu0).2
+        obtain ⟨ht0l, hpt0⟩ := modIdx_spec hmc
+        have hPl := modulesAbove_lt hI1 _ _ P hP
+        obtain ⟨_, _, hpt0', _⟩ := hI1.mods t0 ht0l
+        obtain ⟨pp, q, hpp, hq, he⟩ := modulesAbove_prefix hI1 _ _ _ hpt0' P hP
+        obtain ⟨_, _, hpP, _⟩ := hI1.mods P hPl
+        rw [hpP] at hpp; injection hpp with hpp; subst hpp
+        -- `pathOf t ++ [n] = pathOf P ++ q`
+        rw [hpt0] at he
+        rcases List.eq_nil_or_concat q with hq0 | ⟨q', x, hqx⟩
+        · exact absurd hq0 hq
+        · subst hqx
+          have he' : pathOf proj t ++ [n] = (pathOf proj P ++ q') ++ [x] := by rw [he]; simp
+          obtain ⟨e1, _⟩ := List.append_inj' he' rfl
+          by_cases hq' : q' = []
+          · subst hq'
+            simp only [List.append_nil] at e1
+            have : P = t := by
+              have h1 := modIdx_of_path wf.modNodup hPl
+              have h2 := modIdx_of_path wf.modNodup htl
+              rw [← e1] at h1; rw [h2] at h1; injection h1 with h1; exact h1.symm
+            subst this
+            rw [hs1.symm] at hPu
+            exact absurd hPu (by rw [hs1]; rw [htp]; simp)
+          · have hlow := hc1.low u hu
+            rcases hsl.2 S full _ t P hc.body hst htg hPl ⟨q', hq', e1⟩ with h | h
+            · rw [h, hc1.hS1, hc1.ps] at hPu; cases hPu
+            · rw [hc1.hS1] at h; omega
+      obtain ⟨hb2, hI2, he2, hf2, _⟩ := gpm_ok wf hpm hI1 hb1 hk1 hrk2 hrkA2
       exact ⟨hb2, hI2, he2, hf2, fun h => by rw [h] at hpk'; cases hpk'⟩
     · simp only [hpk, if_false]
       exact ⟨hb1, hI1, Ext.refl _ _, FrameX.refl _ _ _ _, fun _ => rfl⟩
@@ -822,7 +1051,7 @@ theorem starFold_ok {proj : Project} {rank : List Nat} (wf : WFacts proj rank) (
     exact ⟨hb2, hI2, he1.trans he2, by simpa using hf1.trans he1.ps hf2⟩
 
 theorem visitImportStar_ok {proj : Project} {rank : List Nat} (wf : WFacts proj rank) (rx : RxFacts proj)
-    {pm : St → Nat → St} {k : Nat} (hpm : PmOk proj rank pm k) {s : St}
+    (hsl : SubLookup proj rank) {pm : St → Nat → St} {k : Nat} (hpm : PmOk proj rank pm k) {s : St}
     (hI : PdInv proj s) {mod ctx : Nat} {S : Site} {full : List Stmt} (hc : Ctx proj rank s mod ctx S full)
     {lvl : Nat} {M : Path} (hst : Stmt.importStar lvl M ∈ full) (hb : s.bad = false) (hk : cnt s ≤ k) :
     (visitImportStar pm mod ctx lvl M s).bad = false ∧ PdInv proj (visitImportStar pm mod ctx lvl M s) ∧
@@ -841,7 +1070,14 @@ theorem visitImportStar_ok {proj : Project} {rank : List Nat} (wf : WFacts proj 
     have := (lookupModule_spec hI hl).2 t hmt; subst this
     have := hc.low u hu
     rw [hS1] at hrkt; omega
-  obtain ⟨hb1, hI1, he1, hf1, hres1⟩ := gpm_ok wf hpm hI hb hk hrk1
+  have htg : some t ∈ stmtTargets proj S.1 (.importStar lvl M) := by simp [stmtTargets, ht]
+  have hrkA1 : ∀ t0 c, lookupModule s T = (some t0, c) → getPs s t0 = .unprocessed →
+      ∀ P ∈ modulesAbove s.reg (s.reg.objs.length + 1) t0,
+      getPs s P = .unprocessed → ∀ u, getPs s u = .processing → rankOf rank P < rankOf rank u := by
+    intro t0 c hl _
+    have := (lookupModule_spec hI hl).2 t hmt; subst this
+    exact above_low hsl hI hc hst htg (modIdx_spec hmt).1 (q0 := []) (by simp)
+  obtain ⟨hb1, hI1, he1, hf1, hres1⟩ := gpm_ok wf hpm hI hb hk hrk1 hrkA1
   have hsnd := gpm_snd (pm := pm) hI hmt
   simp only [hsnd]
   obtain ⟨htl, hu, _, _⟩ := hres1 t hsnd
@@ -1053,17 +1289,22 @@ theorem visitStmt_ok {proj : Project} {rank : List Nat} (wf : WFacts proj rank) 
       (visitStmt pm mod ctx st s).bad = false ∧ PdInv proj (visitStmt pm mod ctx st s) ∧
       Ext proj s (visitStmt pm mod ctx st s) ∧ CompleteStmt proj (visitStmt pm mod ctx st s) S ctx st ∧
       FrameX proj (some ctx) (explicitNames st) s (visitStmt pm mod ctx st s)
-  | .importMod t a, ctx, s, S, full, hI, hc, hst, hb, _, _ => by
-    simp only [visitStmt]
-    obtain ⟨h1, h2, h3, h4, h5⟩ := visitImport_ok wf rx hI hc hst hb
-    exact ⟨h1, h2, h3, h4, h5.mono (by simp)⟩
+  | .importMod t a, ctx, s, S, full, hI, hc, hst, hb, hk, _ => by
+    simp only [visitStmt, importProcess]
+    obtain ⟨hb0, hI0, he0, hf0⟩ := importProcess_ok wf hsl hpm hst (prefixesOf t) (fun p hp => prefixesOf_spec hp)
+      s hI hc hb hk
+    have hc0 := hc.ext hI hI0 he0
+    obtain ⟨h1, h2, h3, h4, h5⟩ := visitImport_ok wf rx hI0 hc0 hst hb0
+    refine ⟨h1, h2, he0.trans h3, h4, ?_⟩
+    have := (hf0.weaken (ctx := some ctx) (l := [])).trans he0.ps h5
+    exact FrameX.mono (by simpa using this) (by simp)
   | .importFrom lvl M n a, ctx, s, S, full, hI, hc, hst, hb, hk, hp => by
     simp only [visitStmt]
     exact visitImportFrom_ok wf rx hro hsl hpm hI hc hst hb hk
       (fun o ho => hp o ho _ (by simp [explicitNames]))
   | .importStar lvl M, ctx, s, S, full, hI, hc, hst, hb, hk, _ => by
     simp only [visitStmt]
-    obtain ⟨h1, h2, h3, h4⟩ := visitImportStar_ok wf rx hpm hI hc hst hb hk
+    obtain ⟨h1, h2, h3, h4⟩ := visitImportStar_ok wf rx hsl hpm hI hc hst hb hk
     exact ⟨h1, h2, h3, by simp [CompleteStmt], h4.mono (by simp)⟩
   | .classDef n bs body, ctx, s, S, full, hI, hc, hst, hb, hk, hp => by
     simp only [visitStmt]
